@@ -33,3 +33,6 @@ func (r *Rng) Pick(xs []string) string { return xs[r.Intn(len(xs))] }
 
 // Fork derives an independent generator (one per case, so a case replays alone).
 func (r *Rng) Fork() *Rng { return NewRng(r.Next()) }
+
+// Pick2 picks one of the ints
+func (r *Rng) Pick2(xs []int) int { return xs[r.Intn(len(xs))] }
